@@ -123,7 +123,7 @@ def replay_closure(prop: str, body: Dict[str, Any], want: Dict[str, bool]) -> in
     if not case or "files" not in case:
         print("nothing replayable in this file")
         return 2
-    r = run_closures([("replay", case)], want)["replay"]
+    r = run_closures([("replay", case)], dict(want, all_hash_seeds=True))["replay"]
     print(json.dumps(r["obs"], indent=1, default=repr)[:3000])
     print("CORR:", r["corr"] or "ok")
     print("PROP:", r["props"])
